@@ -237,6 +237,7 @@ def run(ctx):
     Q2 = '{[c \\in Cmds |-> IF c = "c1" THEN "q1" ELSE "q2"]}'
     ORD = '{<<"c1", "c2">>}'
     preds = []
+    runs = []
     Q_BEHS = ["ok", "sendfail", "silent", "dup", "foreign", "wrongsender", "crossid", "failreply"]
     X_BEHS = ["ok", "silent", "dup", "crossid"]
     if quick:
@@ -281,43 +282,48 @@ def run(ctx):
     # ------------------------------------------------------------------ 2. scenarios generated from the model
     scenarios = []
     sid = 0
-    if ctx.replay:
-        with open(ctx.replay) as fh:
-            scenarios = [json.load(fh)["replay"]["scenario"]]
-    else:
-        seen = set()
-        gens = [
-            # (cmds, targets, queues, shapes, queue maps, number of behaviours, depth)
-            (["c1"], ["t1", "t2", "t3"], ["q1"], "{f \\in [Cmds -> SUBSET Targets] : f[\"c1\"] # {}}", "[Cmds -> Queues]", 500 if quick else 5000, 60),
-            (["c1", "c2"], ["t1", "t2"], ["q1", "q2"], "[Cmds -> SUBSET Targets]", "[Cmds -> Queues]", 700 if quick else 7000, 90),
-        ]
-        gi = 0
-        for (cmds, tgs, qs, sh, qm, num, depth) in gens:
-            gi += 1
-            name = "CmdServentMCG"
-            behs = ctx.simulate(name, None, num, depth, cfg_text=cfg_gen(cmds, tgs, qs, ALL_BEHS), seed=ctx.seed * 7919 + gi,
-                                files={name + ".tla": mc_module(name, "CmdServentGen", sh, qm, "{}")}, timeout=600)
-            for b in behs:
-                sid += 1
-                s = beh_to_scenario(sid, b)
-                if s is None:
-                    continue
-                if "c2" not in s["tg"]:
-                    s["tg"]["c2"] = []
-                    s["qof"]["c2"] = "q1"
-                canon = json.dumps([s["tg"], s["qof"], s["beh"], s["steps"]], sort_keys=True)
-                if canon in seen:
-                    continue
-                seen.add(canon)
-                scenarios.append(s)
-        tab = emits_table(ctx)
-        rng = random.Random(ctx.seed)
-        nfree = 150 if quick else 2500
-        for i in range(nfree):
+    seen = set()
+    gens = [
+        # (cmds, targets, queues, shapes, queue maps, number of behaviours, depth)
+        (["c1"], ["t1", "t2", "t3"], ["q1"], "{f \\in [Cmds -> SUBSET Targets] : f[\"c1\"] # {}}", "[Cmds -> Queues]", 500 if quick else 5000, 60),
+        (["c1", "c2"], ["t1", "t2"], ["q1", "q2"], "[Cmds -> SUBSET Targets]", "[Cmds -> Queues]", 700 if quick else 7000, 90),
+    ]
+    gi = 0
+    for (cmds, tgs, qs, sh, qm, num, depth) in gens:
+        gi += 1
+        name = "CmdServentMCG"
+        behs = ctx.simulate(name, None, num, depth, cfg_text=cfg_gen(cmds, tgs, qs, ALL_BEHS), seed=ctx.seed * 7919 + gi,
+                            files={name + ".tla": mc_module(name, "CmdServentGen", sh, qm, "{}")}, timeout=600)
+        for b in behs:
             sid += 1
-            scenarios.append(free_scenario(sid, rng, tab))
-    if ctx.replay:
-        scenarios[0]["id"] = 1
+            s = beh_to_scenario(sid, b)
+            if s is None:
+                continue
+            if "c2" not in s["tg"]:
+                s["tg"]["c2"] = []
+                s["qof"]["c2"] = "q1"
+            canon = json.dumps([s["tg"], s["qof"], s["beh"], s["steps"]], sort_keys=True)
+            if canon in seen:
+                continue
+            seen.add(canon)
+            scenarios.append(s)
+    tab = emits_table(ctx)
+    rng = random.Random(ctx.seed)
+    nfree = 150 if quick else 2500
+    for i in range(nfree):
+        sid += 1
+        scenarios.append(free_scenario(sid, rng, tab))
+    execute(ctx, scenarios)
+
+
+def replay(ctx, obj):
+    """./check C12 --replay <file>: run the recorded scenario again on the real code and judge the new recording."""
+    s = dict(obj["scenario"])
+    s["id"] = 1
+    execute(ctx, [s])
+
+
+def execute(ctx, scenarios):
     nsched = sum(1 for s in scenarios if s["mode"] == "sched")
     ctx.log("scenarios: %d scheduled (distinct), %d free" % (nsched, len(scenarios) - nsched))
 
